@@ -653,6 +653,9 @@ package caldav
 
 //@ -- one object per response, in order, under the response's href; a failed response or a failed mandatory property
 //@ -- aborts with an error (C14), it never becomes an object
+//@   -- success means the single response did not fail (a failed response or a failed property is an error, never data)
+//@   ensures H2: err == nil ==> (let d : decoded(xmlDecoderOf(doResp(c.ic.http, lastReq).Body), "internal.MultiStatus") in len(d.Responses) == 1 && !respFailedV(d.Responses[0]))
+
 //@ func caldav.decodeCalendarObjectList(ms) (addrs, err)
 //@   requires R1: ms != nil
 //@   allocates
